@@ -1,6 +1,6 @@
 (* Extract/Driver.v - entry points of the extracted model used by harness/ocaml/modeldrv.ml.
    Thin dispatch only; everything here is computation on the models. *)
-From Adm Require Import Base.Util Codec.IdCodecDefs gen.IdTraitsGen.
+From Adm Require Import Base.Util Codec.IdCodecDefs gen.IdTraitsGen Codec.TimeDefs.
 Local Open Scope N_scope.
 
 Fixpoint assoc_str {A} (k : list N) (l : list (list N * A)) : option A :=
@@ -35,3 +35,7 @@ Definition drv_id_format (name : list N) (vs : list N) : option (list N) :=
     end
   else d <- assoc_str name named_formats ;;
        if values_valid d vs then format_id d vs else None.
+
+(* parseTimecode / formatTimecode *)
+Definition drv_time_parse (s : list N) : option time := parse_time s.
+Definition drv_time_format (t : time) : list N := format_time t.
